@@ -188,6 +188,7 @@ def explore(thunk, axioms=(), max_paths=4000, nested=False):
         prefix = work.pop()
         if not nested:           # a nested exploration must not restart the fresh-name counter of the enclosing path
             reset_fresh()
+            values.Obj._live = []
         saved_oracle = values.ORACLE
         run = Run(prefix, axioms)
         values.ORACLE = run.known
